@@ -71,6 +71,25 @@ def run_until(case):
     return {"nontrivial": "stop at busy instant" in classes, "classes": classes}
 
 
+def bigclock_strategy(tier):
+    """integer clocks beyond 2**53 (no float represents every tick): t = t0 + d must still be exact, nothing may pass through float"""
+    ints = [0, 1, 1, 2, 3, 5, 7]
+    pol = kgen.policies(bias=["continue"] * 4, dl=kgen.st.sampled_from(ints))
+    w = dict(WEIGHTS)
+    w.pop("neg_timeout", None)
+    return kgen.programs(w, max_bodies=5, max_instrs=7, max_start=6, min_instrs=2, min_start=2, pol=pol, ipol=pol,
+                         delay_set=ints, inits=(2 ** 53 + 1, 2 ** 53, 2 ** 60 + 3, 10 ** 18 + 7))
+
+
+def run_bigclock(case):
+    res = kdsl.run_program(case)
+    nt, classes = classify(res.h)
+    odd = any(isinstance(o.due, int) and float(o.due) != o.due for o in res.h.occs)
+    if odd:
+        classes.add("instant that no float represents")
+    return {"nontrivial": odd and "same-class-tie>=2" in classes, "classes": sorted(classes)}
+
+
 def cond_strategy(tier):
     from . import c05
     return c05.strategy(tier)
@@ -107,13 +126,16 @@ PROP = Property(
           "driven through numeric run(until=t) stops (t = pending due instants, grid offsets, offsets for which now+(t-now)!=t "
           "in floating point): the stop is a reference-agenda entry of the urgent class due at exactly t, so it must take effect "
           "at now == t, before ordinary events of t and after everything earlier; non-trivial = a stop at an instant with other "
-          "occurrences due. Facet conditions: programs waiting on all_of/any_of trees; a condition is an ordinary occurrence "
+          "occurrences due. Facet bigclock: the same programs on integer clocks beyond 2**53 with integer "
+          "delays. Facet conditions: programs waiting on all_of/any_of trees; a condition is an ordinary occurrence "
           "triggered when its deciding operand is processed and keeps its place in trigger order."),
     facets=[Facet("programs", strategy, run_case, quick=3000, thorough=20000,
                   essential=["urgent-after-normal", "same-class-tie>=2", "zero-delay chain", "float-sum instant",
                              "negative delay refused"]),
             Facet("until_stops", until_strategy, run_until, quick=1200, thorough=8000,
                   essential=["stop at busy instant", "stop at float-inexact offset"]),
+            Facet("bigclock", bigclock_strategy, run_bigclock, quick=600, thorough=4000,
+                  essential=["instant that no float represents", "same-class-tie>=2"]),
             Facet("conditions", cond_strategy, run_cond, quick=1200, thorough=8000,
                   essential=["condition triggered behind a pending ordinary occurrence of its instant"])],
     assumptions=["every event reaches the agenda through Environment.schedule (tracing subclass overrides it)",
